@@ -9,6 +9,7 @@ import (
 	"net/http/httptest"
 	"os"
 	"path/filepath"
+	"strings"
 	"testing"
 	"time"
 )
@@ -19,6 +20,13 @@ func TestVerifEndpoints(t *testing.T) {
 	}
 	base := t.TempDir()
 	world := vDefaultWorld
+	// a converter that keeps writing to stderr while it works
+	os.MkdirAll(filepath.Join(base, "converter"), 0o755)
+	noisy := strings.Replace(vConverterScript, "    out = b\"CONV:\"", "    for i in range(300):\n        sys.stderr.write(\"noise %d\\n\" % i)\n        sys.stderr.flush()\n        time.sleep(0.002)\n    out = b\"CONV:\"", 1)
+	noisy = strings.Replace(noisy, "import base64, json, sys", "import base64, json, sys, time", 1)
+	if err := os.WriteFile(filepath.Join(base, "converter", "noisy.py"), []byte(noisy), 0o775); err != nil {
+		t.Fatal(err)
+	}
 	s, err := vNewScenario(t, base, &world, nil, true)
 	if err != nil {
 		t.Fatal(err)
@@ -63,6 +71,9 @@ func TestVerifEndpoints(t *testing.T) {
 		t.Fatal(err)
 	}
 	s.mgr.AddTag("tag/a", "", "sport:80")
+	capName, _ := vWriteCapture(s.dirs["pcap"], &world, 2)
+	s.mgr.ImportPcaps([]string{capName})
+	attached := false
 	deadline := time.Now().Add(2500 * time.Millisecond)
 	for time.Now().Before(deadline) {
 		s.mgr.ListPcapOverIPEndpoints()
@@ -70,6 +81,14 @@ func TestVerifEndpoints(t *testing.T) {
 		s.mgr.ListTags()
 		s.mgr.KnownPcaps()
 		s.mgr.ListPcapProcessorWebhooks()
+		if !attached && s.mgr.UpdateTag("tag/a", UpdateTagOperationSetConverter([]string{"noisy"})) == nil {
+			attached = true
+		}
+		for _, st := range s.mgr.ListConverters() {
+			for _, p := range st.Processes {
+				s.mgr.ConverterStderr(st.Name, p.Pid)
+			}
+		}
 		time.Sleep(5 * time.Millisecond)
 	}
 	s.mgr.DelPcapOverIPEndpoint(ln.Addr().String())
